@@ -266,6 +266,17 @@ static void run_lcase(long idx)
             ZSTD_DCtx_reset(d, ZSTD_reset_session_only); }
         v_stat("decode_capacity_runs", 1); v_stat("dense_sweep_runs", 1);
         gb_free(&out); }
+    /* the skippable-frame writer and reader, every capacity 0 .. payload+12 */
+    {   size_t const pl = vr_u(&r, 41); uint8_t pay[48]; vr_fill(&r, pay, pl);
+        for (size_t c = 0; c <= pl + 12; c++) { gbuf w = gb_alloc(c, (int)(c & 1)); size_t const wr = ZSTD_writeSkippableFrame(w.p, c, pay, pl, (unsigned)vr_u(&r, 16));
+            if (!gb_ok(&w)) v_viol("compress:write-outside-dst(canary)", "ZSTD_writeSkippableFrame payload=%zu cap=%zu", pl, c);
+            if (!ZSTD_isError(wr) && wr > c) v_viol("compress:returned-size-exceeds-capacity", "ZSTD_writeSkippableFrame payload=%zu cap=%zu ret=%zu", pl, c, wr);
+            if (c >= pl + 8 && (ZSTD_isError(wr) || wr != pl + 8)) v_viol("compress:fails-at-or-above-compressBound", "ZSTD_writeSkippableFrame payload=%zu cap=%zu", pl, c);
+            if (!ZSTD_isError(wr) && wr <= c) { for (size_t rc = 0; rc <= pl + 4; rc++) { gbuf o = gb_alloc(rc, 0); unsigned mv = 0; size_t const rd = ZSTD_readSkippableFrame(o.p, rc, &mv, w.p, wr);
+                    if (!gb_ok(&o)) v_viol("decode:write-outside-dst(canary)", "ZSTD_readSkippableFrame payload=%zu cap=%zu", pl, rc);
+                    if (!ZSTD_isError(rd) && (rd > rc || rd != pl || memcmp(o.p, pay, pl))) v_viol("decode:wrong-output", "ZSTD_readSkippableFrame payload=%zu cap=%zu ret=%zu", pl, rc, rd);
+                    if (rc >= pl && ZSTD_isError(rd)) v_viol("decode:fails-with-sufficient-capacity", "ZSTD_readSkippableFrame payload=%zu cap=%zu", pl, rc); gb_free(&o); } }
+            v_stat("skippable_capacity_runs", 1); gb_free(&w); } }
     v_cell("dense_kind", "%s", kind); v_stat("dense_frames", 1);
     v_sample("dense capacity sweep: kind=%s frame=%zu bytes content=%zu capacities 0..%zu", kind, fs, N, N + 40);
     ZSTD_freeDCtx(d); gb_free(&in);
